@@ -25,7 +25,7 @@ func runFx(t *testing.T, listed, widened, mutators string) (report []string, eff
 }
 
 var clean = []string{"fx.PureRead", "fx.FreshResult", "fx.AppendFresh", "fx.HelperOnFresh", "fx.ClosureLocal",
-	"fx.FreshStruct", "fx.CompareOnly", "fx.StringToBytesCopy"}
+	"fx.FreshStruct", "fx.CompareOnly", "fx.StringToBytesCopy", "fx.PanicsWithFresh"}
 
 // entry -> substrings that must all occur in one SHARED-WRITE line of that entry
 var dirty = map[string][]string{
@@ -79,7 +79,7 @@ func TestEffectClasses(t *testing.T) {
 	for e := range unclassified {
 		all = append(all, e)
 	}
-	all = append(all, "fx.ReturnsAliasOfParam", "fx.ReturnsGlobalSlice", "fx.NoSuchFunction")
+	all = append(all, "fx.ReturnsAliasOfParam", "fx.ReturnsGlobalSlice", "fx.NoSuchFunction", "fx.PanicsWithGlobal", "fx.UsesGOMAXPROCS")
 	report, eff := runFx(t, strings.Join(all, ","), "", "fx.Acc.Add,fx.Acc.AddCounting")
 	t.Log("\n" + strings.Join(report, "\n"))
 	for _, e := range clean {
@@ -110,6 +110,15 @@ func TestEffectClasses(t *testing.T) {
 	}
 	if !hasLine(report, "RESULT-ALIASES", "fx.ReturnsGlobalSlice", []string{"global fx.table"}) {
 		t.Errorf("ReturnsGlobalSlice not reported")
+	}
+	if !hasLine(report, "SHARED-WRITE", "fx.PanicsWithGlobal", []string{"Store in fx.outOfRange", "global fx.oneErr"}) {
+		t.Errorf("PanicsWithGlobal: store to the reused error value not reported")
+	}
+	if !hasLine(report, "PANIC-VALUE-ALIASES", "fx.PanicsWithGlobal", []string{"Panic in fx.PanicsWithGlobal", "global fx.oneErr"}) {
+		t.Errorf("PanicsWithGlobal: the panic value pointing into a global is not reported")
+	}
+	if !hasLine(report, "AMBIENT-STATE", "fx.UsesGOMAXPROCS", []string{"ambient:runtime.GOMAXPROCS"}) {
+		t.Errorf("UsesGOMAXPROCS not reported")
 	}
 	found := false
 	for _, l := range report {
